@@ -23,9 +23,10 @@ type workerCheckpoint struct {
 func newCheckpoint(stats SamplingStats) checkpoint {
 	workers := make([]workerCheckpoint, 0, len(stats.Workers))
 	for _, w := range stats.Workers {
-		// no need to resume recent jobs after restart. On the other hand, retry jobs will resume from
-		// failed heights map. it leaves only catchup jobs to be stored and resumed
-		if w.JobType == catchupJob {
+		// retry jobs will resume from failed heights map. Catchup jobs are stored and resumed. Recent
+		// jobs have to be stored as well: the catchup cursor was moved past their height when they
+		// were created, so the height would be lost if the job did not finish before the restart
+		if w.JobType == catchupJob || w.JobType == recentJob {
 			workers = append(workers, workerCheckpoint{
 				From:    w.Curr,
 				To:      w.To,
